@@ -4,18 +4,18 @@
 # named checks (quick), then restores /repo. Never commits anything in /repo.
 d="$(cd "$1" && pwd)"; shift
 ids="$@"
-cd /repo || exit 2
+R="${SEED_REPO:-/repo}"; cd "$R" || exit 2
 if [ -n "$(git status --porcelain --untracked-files=no)" ]; then echo "repo dirty"; exit 2; fi
-echo "== demo on unchanged tree"; (cd /repo && PYTHONPATH=/repo PYTHONWARNINGS=ignore /venv/bin/python "$d/demo.py" 2>&1 | tail -2; echo "exit=${PIPESTATUS[0]}")
+echo "== demo on unchanged tree"; (cd "$R" && PYTHONPATH="$R" PYTHONWARNINGS=ignore /venv/bin/python "$d/demo.py" 2>&1 | tail -2; echo "exit=${PIPESTATUS[0]}")
 if ! git apply --check "$d/patch.diff" 2>/dev/null; then echo "PATCH DOES NOT APPLY"; git apply --check "$d/patch.diff"; exit 3; fi
 git apply "$d/patch.diff"
-echo "== repo tests with patch"; /venv/bin/python -m pytest -q -p no:cacheprovider --continue-on-collection-errors 2>&1 | tail -1
-echo "== demo with patch"; (cd /repo && PYTHONPATH=/repo PYTHONWARNINGS=ignore /venv/bin/python "$d/demo.py" 2>&1 | tail -2; echo "exit=${PIPESTATUS[0]}")
+echo "== repo tests with patch"; PYTHONPATH="$R" /venv/bin/python -m pytest -q -p no:cacheprovider --continue-on-collection-errors 2>&1 | tail -1
+echo "== demo with patch"; (cd "$R" && PYTHONPATH="$R" PYTHONWARNINGS=ignore /venv/bin/python "$d/demo.py" 2>&1 | tail -2; echo "exit=${PIPESTATUS[0]}")
 cd /verif
 for i in $ids; do
-  out=$(./check $i --tier quick 2>&1)
+  out=$(HABUTAX_REPO="$R" ./check $i --tier quick 2>&1)
   echo "== $i: $(echo "$out" | grep -c '^VIOLATION') violation lines; $(echo "$out" | tail -1)"
   echo "$out" | grep "violation bucket" | head -3 | cut -c1-300
 done
-git -C /repo checkout -- .
+git -C "$R" checkout -- .
 rm -rf /verif/replays
